@@ -325,6 +325,11 @@ def run_check(prop, tier, seed, replay=None):
                     distinct.add(hashlib.sha1(c.encode()).hexdigest())
                 if len(samples) < 4 and kind == 'generated' and nontriv(c, o):
                     samples.append(dict(stream=sname, case=c[:600], observation=o[:600]))
+            if model is not None and scfg.get('wf_check'):
+                nowf = [i for i, mline in enumerate(model) if mline.endswith('WF 0')]
+                if nowf:
+                    tie_broken.append('hypothesis plan_wf of the refinement theorem fails on %d generated case(s), first: %s' % (len(nowf), cases[nowf[0]]))
+                cov['plan_wf_checked'] = cov.get('plan_wf_checked', 0) + sum(1 for mline in model if mline.endswith('WF 1'))
             if model is not None:
                 cmp = scfg.get('compare', lambda c, o, m: o == m)
                 bad = [i for i in range(len(cases)) if not cmp(cases[i], obs[i], model[i])]
